@@ -16,12 +16,15 @@ mod e1u_model;
 mod e2;
 mod e3;
 mod e4;
+#[cfg(shadow_http)]
+mod e5;
 mod engine;
 mod exec;
 mod rng;
 mod runner;
 mod server;
 mod simclient;
+mod threads;
 mod world;
 
 use common::Tier;
@@ -38,6 +41,8 @@ pub enum Eng {
     E4,
     E2U,
     E2J,
+    E5,
+    E5J,
 }
 
 impl Eng {
@@ -49,6 +54,8 @@ impl Eng {
             "e4-strategy" => Some(Eng::E4),
             "e2-uist-twin" => Some(Eng::E2U),
             "e2-jura-twin" => Some(Eng::E2J),
+            "e5-uist-threads" => Some(Eng::E5),
+            "e5-jura-threads" => Some(Eng::E5J),
             _ => None,
         }
     }
@@ -81,6 +88,21 @@ macro_rules! with_engine {
                 let $e = &e2::E2J;
                 $body
             }
+            #[cfg(shadow_http)]
+            Eng::E5 => {
+                let $e = &e5::E5U;
+                $body
+            }
+            #[cfg(shadow_http)]
+            Eng::E5J => {
+                let $e = &e5::E5J;
+                $body
+            }
+            #[cfg(not(shadow_http))]
+            Eng::E5 | Eng::E5J => {
+                out!("HARNESS-ERROR the shadow copy of rotala::http could not be produced (build.rs): the thread-level engine is unavailable");
+                std::process::exit(2);
+            }
         }
     };
 }
@@ -96,7 +118,7 @@ fn plan(prop: &str) -> Vec<(Eng, u64, u64)> {
         "C04" | "C05" | "C06" | "C09" | "C10" | "C11" | "C12" => vec![(Eng::E3, 150_000, 1_000_000)],
         "C20" => vec![(Eng::E2U, 100_000, 1_000_000), (Eng::E2J, 60_000, 400_000)],
         "C16" => vec![(Eng::E4, 60_000, 1_000_000)],
-        "C08" => vec![(Eng::E1U, 45_000, 400_000), (Eng::E1J, 35_000, 150_000), (Eng::E2U, 20_000, 200_000)],
+        "C08" => vec![(Eng::E1U, 30_000, 400_000), (Eng::E1J, 20_000, 150_000), (Eng::E2U, 15_000, 200_000), (Eng::E5, 12_000, 300_000), (Eng::E5J, 8_000, 150_000)],
         _ => vec![],
     }
 }
@@ -292,7 +314,11 @@ fn cmd_check(args: &[String]) {
         .unwrap_or(1);
     let jobs: usize = arg_val(args, "--jobs").and_then(|s| s.parse().ok()).unwrap_or_else(|| std::thread::available_parallelism().map(|n| n.get()).unwrap_or(8));
     let scale: f64 = arg_val(args, "--runs-scale").and_then(|s| s.parse().ok()).unwrap_or(1.0);
-    let plan = plan(&prop);
+    let mut plan = plan(&prop);
+    if !cfg!(shadow_http) && plan.iter().any(|(e, _, _)| matches!(e, Eng::E5 | Eng::E5J)) {
+        out!("NOTE thread-level engines (e5) unavailable: the shadow copy of rotala::http could not be produced or does not compile; this check runs without them");
+        plan.retain(|(e, _, _)| !matches!(e, Eng::E5 | Eng::E5J));
+    }
     if plan.is_empty() {
         out!("HARNESS-ERROR property {prop} has no check (not claimed)");
         std::process::exit(2);
@@ -474,7 +500,7 @@ fn components() -> Value {
 fn assumptions(prop: &str) -> Vec<String> {
     let mut v = vec![
         "sampling, not proof: a clean batch is evidence over the explored runs only".to_string(),
-        "A1: every actix handler holds the AppState mutex from its first statement to its return with no .await in between, so thread-level interleavings of the real server are exactly the request-level interleavings the simulator schedules".to_string(),
+        "A1: every actix handler holds the AppState mutex from its first statement to its return with no .await in between, so thread-level interleavings of the real server are exactly the request-level interleavings the simulator schedules. A1 is not taken on trust: the C08 check (engines e5-*-threads) runs the real handlers on simulated threads under a scheduler that decides every lock hand-over and tests the histories for linearizability".to_string(),
         "the hooks behind cargo feature `verif` are read-only (snapshots, accessors) except the positions-order hook, which only imposes a key order the real HashMap could have produced".to_string(),
     ];
     if matches!(prop, "C02" | "C03" | "C17" | "C01") {
@@ -487,7 +513,7 @@ fn cmd_determinism(args: &[String]) {
     let seeds: u64 = arg_val(args, "--seeds").and_then(|s| s.parse().ok()).unwrap_or(2000);
     let jobs: usize = arg_val(args, "--jobs").and_then(|s| s.parse().ok()).unwrap_or(16);
     let base: u64 = arg_val(args, "--seed").and_then(|s| s.parse().ok()).unwrap_or(1);
-    let engines = [Eng::E1U, Eng::E1J, Eng::E3, Eng::E4, Eng::E2U, Eng::E2J];
+    let engines = [Eng::E1U, Eng::E1J, Eng::E3, Eng::E4, Eng::E2U, Eng::E2J, Eng::E5, Eng::E5J];
     for eng in engines {
         let next = std::sync::atomic::AtomicU64::new(0);
         let results = std::sync::Mutex::new(Vec::<(u64, u64, u64)>::new());
